@@ -747,42 +747,15 @@ func (s *solo) randomParams() []paramCap {
 	return out
 }
 
-// settleBoot: a call through a bootstrap client that is being resolved at
-// that very moment can wedge the connection (Promise.resolve waits for the
-// proxy client's calls which wait for the promise: design candidate #12,
-// property C11).  The script therefore calls through a bootstrap client
-// only before the peer answered the Bootstrap (pure pipelining) or after the
-// Conn has finished it.
-func (s *solo) settleBoot(h *rpcbench.Handle) bool {
-	for _, b := range s.appBoots {
-		if b.h != h {
-			continue
-		}
-		root := b
-		if b.copyOf != nil {
-			root = b.copyOf
-		}
-		s.pump()
-		if root.pa == nil {
-			return false
-		}
-		if !root.pa.returned {
-			return true
-		}
-		return s.pumpUntil("Finish of the Bootstrap question", func() bool { return root.pa.finSeen })
-	}
-	return true
-}
-
 func (s *solo) stepAppCall() bool {
 	hs := s.liveImportHandles()
 	if len(hs) == 0 || s.closed {
 		return false
 	}
+	// bootstrap clients are used at any time, also while their Bootstrap
+	// Return is being processed (the window of design candidate #12, which
+	// deadlocked before the core fix 4d46932)
 	h := hs[s.rng.Intn(len(hs))]
-	if !s.settleBoot(h) {
-		return false
-	}
 	params := s.randomParams()
 	want := s.randomWant(params)
 	ac, send := s.newAppCall(h.ID, "handle "+h.Label, params, want)
